@@ -81,6 +81,7 @@ inductive Op
   | lookupPeer                    -- peer = network.verified_by_public_key_bin.get(auth.public_key_bin)
   | orLookupByAddr                -- peer = peer or network.get_verified_by_address(source_address)   (NOT in the code
                                   --   today; translated so that such an `or`-chain fails the guard, not the translator)
+  | touchPeer                     -- if peer: peer.add_address(source_address)   (mutates the STORED verified Peer)
   | appendData                    -- output = [*unpacked, data]
   | callPeer                      -- return func(self, peer or Peer(auth.public_key_bin, source_address), *unpacked)
   | callAddr                      -- return func(self, source_address, *unpacked)
@@ -113,6 +114,9 @@ structure Env (P : Type) where
   verifySig : Scheme → Bytes → Bytes → Option (Bool × Bytes)
   /-- `unpack_serializable_list(payloads, buf, offset)` with `consume_all`; `none` = PackError -/
   decode : Bytes → Nat → Option P
+  /-- the second payload format a raw handler falls back to (`DiscoveryCommunity.on_old_introduction_request`:
+      first `DiscoveryIntroductionRequestPayload`, then `IntroductionRequestPayload`); irrelevant for wrappers -/
+  decodeAlt : Bytes → Nat → Option P := decode
   /-- `Network.verified_by_public_key_bin.get`: carried key bytes ↦ canonical key of the stored `Peer` -/
   net : Bytes → Option Bytes
   /-- `Network.get_verified_by_address(source_address)`: key of whichever verified peer is recorded at the source
@@ -126,6 +130,8 @@ structure Regs (P : Type) where
   unpacked : Option P := none
   peer : Option (Option Bytes) := none
   wd : Option Bytes := none
+  /-- key of the stored verified Peer whose address book was updated with the source address of this datagram -/
+  touched : Option Bytes := none
 
 /-- `Peer(auth.public_key_bin, source_address)`: parses the key again; the peer's identity is the canonical key -/
 def newPeerKey (S : Scheme) (kb : Bytes) : Option Bytes := S.parse kb
@@ -164,6 +170,11 @@ def step {P : Type} (E : Env P) (data : Bytes) (r : Regs P) : Op → Except (Out
     | none => .error .stuck
     | some (some _) => .ok r
     | some none => .ok { r with peer := some E.netAddr }
+  | .touchPeer =>
+    match r.peer with
+    | none => .error .stuck
+    | some none => .ok r
+    | some (some k) => .ok { r with touched := some k }
   | .appendData => .ok { r with wd := some data }
   | .callPeer =>
     match r.auth, r.peer, r.unpacked with
@@ -198,12 +209,24 @@ def runFrom {P : Type} (E : Env P) (data : Bytes) : List Op → Regs P → Outco
 /-- run a wrapper body on a datagram -/
 def run {P : Type} (E : Env P) (prog : List Op) (data : Bytes) : Outcome P := runFrom E data prog {}
 
+/-- the side effect of a wrapper body on the receiver's stored Peers, whatever the outcome (also when it ends in an
+    exception): the key of the verified Peer whose addresses were updated with this datagram's source address -/
+def touchedFrom {P : Type} (E : Env P) (data : Bytes) : List Op → Regs P → Option Bytes
+  | [], r => r.touched
+  | op :: rest, r =>
+    match step E data r op with
+    | .error _ => r.touched
+    | .ok r' => touchedFrom E data rest r'
+
+def touchedBy {P : Type} (E : Env P) (prog : List Op) (data : Bytes) : Option Bytes := touchedFrom E data prog {}
+
 /-! ### reference programs (what the wrappers are today; documentation and examples only — the theorems quantify
      over every program that passes the static guard of Guard.lean, and Gen.lean's programs are shown to pass it) -/
 
-def refSigned : List Op := [.unpackAuth 23, .verify, .decode .remainder 23, .assertValid, .lookupPeer, .callPeer]
+def refSigned : List Op :=
+  [.unpackAuth 23, .verify, .decode .remainder 23, .assertValid, .lookupPeer, .touchPeer, .callPeer]
 def refSignedWd : List Op :=
-  [.unpackAuth 23, .verify, .decode .remainder 23, .assertValid, .appendData, .lookupPeer, .callPeer]
+  [.unpackAuth 23, .verify, .decode .remainder 23, .assertValid, .appendData, .lookupPeer, .touchPeer, .callPeer]
 def refUnsigned : List Op := [.decode .data 23, .callAddr]
 def refEzUnpackAuth : List Op := [.unpackAuth 23, .verify, .decode .remainder 23, .assertValid, .returnAuth]
 
@@ -228,7 +251,9 @@ def Authentic (S : Scheme) (strict : Bool) (data : Bytes) (k : Bytes) : Prop :=
 
 /-! ### handler tables and dispatch -/
 
-inductive Kind | signed | signedWd | unsigned | unsignedWd | deprecated | cell | cellDirect | raw
+/-- `raw` = the REVIEWED raw handler shape (spec raw_modelled: authenticates by calling `_ez_unpack_auth` itself, modelled
+    by `discRaw`); `rawOther` = any other undecorated function (not modelled: `Dispatch.other`) -/
+inductive Kind | signed | signedWd | unsigned | unsignedWd | deprecated | cell | cellDirect | raw | rawOther
   deriving DecidableEq, Repr
 
 structure Handler where
@@ -236,7 +261,7 @@ structure Handler where
   name : String
   kind : Kind
   payloads : List String
-  deriving Repr
+  deriving Repr, DecidableEq
 
 structure Overlay where
   name : String
@@ -264,6 +289,8 @@ structure Progs where
   unsigned : List Op
   unsignedWd : List Op
   ezUnpackAuth : List Op
+  /-- does the raw handler catch PacketDecodingError / PackError of the first attempt and try the second format? -/
+  rawCatches : Bool := true
 
 def refProgs : Progs :=
   { signed := refSigned, signedWd := refSignedWd, unsigned := refUnsigned,
@@ -275,20 +302,22 @@ inductive Dispatch (P : Type)
   | droppedShort            -- no msg-id byte: `len(data) < 23` returns (before C03's repair: IndexError on data[22])
   | noHandler
   | handler (h : Handler) (o : Outcome P)
-  | other (h : Handler)     -- deprecated / cell handlers: not modelled further here
-  deriving Repr
+  | other (h : Handler)     -- deprecated / cell / unreviewed raw handlers: not modelled further here
+  deriving Repr, DecidableEq
 
-/-- `DiscoveryCommunity.on_old_introduction_request` after the max_peers gate: first attempt, on
-    PacketDecodingError / PackError the second; then `Peer(auth.public_key_bin, source_address)` -/
-def discRaw {P : Type} (E1 E2 : Env P) (prog : List Op) (catches : Bool) (data : Bytes) : Outcome P :=
+/-- `DiscoveryCommunity.on_old_introduction_request` after the max_peers gate: `_ez_unpack_auth` with the first
+    payload format, on PacketDecodingError / PackError again with the second (`decodeAlt`); then
+    `Peer(auth.public_key_bin, source_address)` (and `add_verified_peer(peer)`, see `Node.recv`) -/
+def discRaw {P : Type} (E : Env P) (prog : List Op) (catches : Bool) (data : Bytes) : Outcome P :=
+  let E2 : Env P := { E with decode := E.decodeAlt }
   let fin : Outcome P → Outcome P := fun o =>
     match o with
     | .returned kb p =>
-      match newPeerKey E1.S kb with
+      match newPeerKey E.S kb with
       | some k => .called k p none
       | none => .rejected .keyParse
     | o => o
-  match run E1 prog data with
+  match run E prog data with
   | .rejected .keyParse => .rejected .keyParse            -- ValueError is not caught
   | .rejected st => if catches then fin (run E2 prog data) else .rejected st
   | o => fin o
@@ -308,26 +337,31 @@ def onPacket {P : Type} (G : Progs) (o : Overlay) (envOf : Handler → Env P) (p
         | .signedWd => .handler h (run (envOf h) G.signedWd data)
         | .unsigned => .handler h (run (envOf h) G.unsigned data)
         | .unsignedWd => .handler h (run (envOf h) G.unsignedWd data)
+        | .raw => .handler h (discRaw (envOf h) G.ezUnpackAuth G.rawCatches data)
         | _ => .other h
 
 /-! ### a node over histories: who ends up in `verified_peers` -/
 
-/-- only the authenticated peer handed to a handler can be added by it (`add_verified_peer(peer)`); whether a given
-    handler does so is left open (`adds`) -/
+/-- The key index of ONE `Network`, shared by all overlays of an IPv8 instance.  Modelling assumption (not derived from
+    handler bodies): a handler can add only the authenticated Peer it was handed (`add_verified_peer(peer)`); whether a
+    given handler does so is left open (`adds`).  Code that adds verified peers outside handlers (DHT `PingChurn`,
+    `Network.discover_address`) is outside this model; the harness watches it on the implementation. -/
 structure Node where
   verified : List Bytes := []
 
 def Node.net (n : Node) (kb : Bytes) : Option Bytes := if kb ∈ n.verified then some kb else none
 
-def Node.recv {P : Type} (G : Progs) (o : Overlay) (envOf : Handler → Env P) (adds : Handler → Bool)
-    (n : Node) (data : Bytes) : Node :=
+/-- one datagram arriving at overlay `o` of the node -/
+def Node.recv {P : Type} (G : Progs) (envOf : Handler → Env P) (adds : Handler → Bool)
+    (n : Node) (o : Overlay) (data : Bytes) : Node :=
   match onPacket G o (fun h => { envOf h with net := n.net }) 22 22 data with
   | .handler h (.called k _ _) => if adds h && !(n.verified.contains k) then { verified := k :: n.verified } else n
   | _ => n
 
-def Node.runHistory {P : Type} (G : Progs) (o : Overlay) (envOf : Handler → Env P) (adds : Handler → Bool) :
-    Node → List Bytes → Node
+/-- a history: which overlay of the node each datagram is delivered to -/
+def Node.runHistory {P : Type} (G : Progs) (envOf : Handler → Env P) (adds : Handler → Bool) :
+    Node → List (Overlay × Bytes) → Node
   | n, [] => n
-  | n, d :: ds => Node.runHistory G o envOf adds (Node.recv G o envOf adds n d) ds
+  | n, (o, d) :: ds => Node.runHistory G envOf adds (Node.recv G envOf adds n o d) ds
 
 end Ipv8.C01
